@@ -30,6 +30,18 @@ from .passes import (
 ElaboratableType = TypeVar("ElaboratableType", bound=Elaboratables)
 
 
+class ConnTypesRepeat(ConnTypes):
+    """# Post-flattening repeat of `ConnTypes`.
+    Each `ElabPass` class caches the Modules it has completed.
+    The repeat is its own class, with its own cache, so that it re-visits
+    the Modules which the first `ConnTypes` pass checked before they were flattened."""
+
+
+class OrphanageRepeat(Orphanage):
+    """# Post-flattening repeat of `Orphanage`. See `ConnTypesRepeat`."""
+
+
+
 @datatype
 class Elaborator:
     """
@@ -57,8 +69,8 @@ class Elaborator:
                 #
                 # A couple repeats
                 #
-                ConnTypes,
-                Orphanage,
+                ConnTypesRepeat,
+                OrphanageRepeat,
                 #
                 # And final module-marking
                 #
